@@ -23,6 +23,13 @@ def repo():
     return os.path.realpath(os.environ.get('VERIF_REPO', '/repo'))
 
 
+def evdir():
+    """Evidence directory: /verif/evidence, unless VERIF_EVIDENCE_DIR redirects it
+    (used when the monitors are validated against scratch mutant copies, so that
+    committed evidence always comes from /repo itself)."""
+    return os.environ.get('VERIF_EVIDENCE_DIR') or os.path.join(HERE, 'evidence')
+
+
 def worker_env(extra=None):
     env = dict(os.environ)
     env['PYTHONPATH'] = os.pathsep.join([repo(), HERE, os.path.join(HERE, '.deps')])
@@ -199,14 +206,15 @@ def main(argv=None):
         agg['inconclusive'].append('no case was evaluated')
 
     # write replay witnesses (stale ones of this property are removed first)
-    os.makedirs(os.path.join(HERE, 'evidence', 'replay'), exist_ok=True)
+    os.makedirs(os.path.join(evdir(), 'replay'), exist_ok=True)
     if not a.replay:
-        for fn in os.listdir(os.path.join(HERE, 'evidence', 'replay')):
+        for fn in os.listdir(os.path.join(evdir(), 'replay')):
             if fn.startswith(prop + '-'):
-                os.unlink(os.path.join(HERE, 'evidence', 'replay', fn))
+                os.unlink(os.path.join(evdir(), 'replay', fn))
     lines = []
     for i, v in enumerate(fresh):
-        path = os.path.join('evidence', 'replay', '%s-%s-%d.json' % (prop, v['signature'].get('dev', 'x'), i))
+        path = os.path.join(os.path.relpath(evdir(), HERE), 'replay',
+                            '%s-%s-%d.json' % (prop, v['signature'].get('dev', 'x'), i))
         with open(os.path.join(HERE, path), 'w') as f:
             json.dump({'property': prop, 'seed': seed, 'tier': tier, 'signature': v['signature'],
                        'detail': v['detail'], 'count': v['count'], 'witness': v['witness']}, f, indent=1)
@@ -296,8 +304,8 @@ def write_evidence(prop, tier, seed, meta, agg, fresh, matched, findings, wall):
         'wall_s': round(wall, 2),
         'violations': int(sum(v['count'] for v in fresh)),
     }
-    os.makedirs(os.path.join(HERE, 'evidence'), exist_ok=True)
-    with open(os.path.join(HERE, 'evidence', prop + '.json'), 'w') as f:
+    os.makedirs(evdir(), exist_ok=True)
+    with open(os.path.join(evdir(), prop + '.json'), 'w') as f:
         json.dump(ev, f, indent=1, default=str)
 
 
